@@ -16,7 +16,7 @@
    Without the hypothesis history independence is false for the code as it is
    (known finding collision-bucket-insertion-order): Pinned.bucket_order_refuted. *)
 From Coq Require Import List ZArith Bool Sorted Lia.
-From GZ Require Import C15.Model C15.Cluster C15.Conc C15.Check C15.Proofs C15.ProofsB C15.ProofsC C15.ProofsD C15.ProofsE C15.Pinned.
+From GZ Require Import C15.Model C15.Cluster C15.Conc C15.Check C15.Proofs C15.ProofsB C15.ProofsC C15.ProofsD C15.ProofsE C15.ProofsF C15.Pinned.
 Import ListNotations.
 Open Scope Z_scope.
 
@@ -477,3 +477,36 @@ Theorem concurrent_ring_is_image_of_membership : forall vh R acts,
   (forall h, In h (keys s) <-> live_hashL vh (amap_acts R acts) h).
 Proof. exact arun_ring_image_l. Qed.
 Print Assumptions concurrent_ring_is_image_of_membership.
+
+(* ---- the concurrent judgements are no oracle (ProofsF.v) ---------------------------------------
+   [GetSpecL t m hp g]: g is none and no layer of the layered node map m has a live virtual node, or g
+   is the value of a layer owning the cyclic successor slot of hp — the statement of
+   concurrent_get_owner_of_successor, for the measured hash table.  The boolean clause evaluated on
+   every observed answer of a concurrent case is equivalent to it ... *)
+Theorem concurrent_clause_reflect : forall t R, table_ok t R = true -> forall m hp g,
+  lmap_wf t R m -> (get_ok t m hp g = true <-> GetSpecL t m hp g).
+Proof. exact get_ok_reflect. Qed.
+Print Assumptions concurrent_clause_reflect.
+
+(* ... at history level: [conc_ok] (all steps, all probes, the overlapping lookups judged against the
+   layers before or — if the calls overlap in real time — after their step) holds iff [ConcSpec] *)
+Theorem concurrent_history_reflect : forall t R, table_ok t R = true -> 0 <= R ->
+  forall ps steps m obs, lmap_wf t R m -> steps_in_table t steps ->
+  (conc_ok t R ps m steps obs = true <-> ConcSpec t R ps m steps obs).
+Proof. exact conc_ok_reflect_l. Qed.
+Print Assumptions concurrent_history_reflect.
+
+(* ... and the model's answers on the executed trace satisfy it: agrees => prop_ok *)
+Theorem concurrent_agrees_implies_prop_ok : forall c,
+  table_ok (kvh c) (kR c) = true -> 0 <= kR c -> steps_in_table (kvh c) (ksteps c) ->
+  agrees (ConcCase c) = true -> prop_ok (ConcCase c) = true.
+Proof. exact agrees_k_implies_prop_ok_k_l. Qed.
+Print Assumptions concurrent_agrees_implies_prop_ok.
+
+Example conc_case_example :
+  let t := [(0, [7; 20]); (1, [7; 30])] in
+  let steps := [([ARemove 0; AInsert (mkNode 0 0) 2], None); ([ARemove 1], Some (0, 0, true, false));
+                ([AInsert (mkNode 1 1) 1], None); ([ARemove 0], Some (0, 1, true, true))] in
+  let c := mkConc 2 t steps [(5, 1); (25, 0)] (model_obs_k (mkConc 2 t steps [(5, 1); (25, 0)] [])) in
+  table_ok t 2 = true /\ agrees (ConcCase c) = true /\ prop_ok (ConcCase c) = true.
+Proof. vm_compute. auto. Qed.
